@@ -1,6 +1,7 @@
 package verifsim
 
 import (
+	"context"
 	"bytes"
 	"fmt"
 	"os"
@@ -369,8 +370,14 @@ func runC13(rc *RunCtx) {
 			s.Probe("cache_purged")
 		case r == 2 && st.Storage != nil: // recursive helpers
 			c.desc = append(c.desc, "collect")
-			ks, err := logical.CollectKeys(bg, st.Storage)
+			bs := &budgetStorage{Storage: st.Storage, left: helperOpBudget}
+			ks, err := logical.CollectKeys(bg, bs)
 			if err != nil {
+				if bs.exhausted {
+					c.viol("scan-helper-did-not-terminate", map[string]any{"bottom": c.st.Layers[0]},
+						"CollectKeys over %d keys made more than %d storage calls (a page that repeats entries at or before 'after' never ends the scan)", len(c.model.M), helperOpBudget)
+					return
+				}
 				if c.faulted {
 					c.faulted = false
 					continue
@@ -386,10 +393,16 @@ func runC13(rc *RunCtx) {
 		case r == 3 && st.Storage != nil && tp.Pick(4) == 0:
 			c.desc = append(c.desc, "clearview")
 			var err error
+			bs := &budgetStorage{Storage: st.Storage, left: helperOpBudget}
 			if tp.Pick(2) == 0 {
-				err = logical.ClearViewWithPagination(bg, st.Storage, log.NewNullLogger())
+				err = logical.ClearViewWithPagination(bg, bs, log.NewNullLogger())
 			} else {
-				err = logical.ClearViewWithoutPagination(bg, st.Storage, log.NewNullLogger())
+				err = logical.ClearViewWithoutPagination(bg, bs, log.NewNullLogger())
+			}
+			if err != nil && bs.exhausted {
+				c.viol("scan-helper-did-not-terminate", map[string]any{"bottom": c.st.Layers[0]},
+					"ClearView over %d keys made more than %d storage calls", len(c.model.M), helperOpBudget)
+				return
 			}
 			if err != nil {
 				if c.faulted {
@@ -445,6 +458,55 @@ func runC13(rc *RunCtx) {
 	}
 	rc.Res.Sample = map[string]any{"stack": st.Name, "ops": tail(c.desc, 15)}
 	rc.Res.StateSig = fmt.Sprintf("%s/%d", st.Name, len(c.model.M))
+}
+
+// helperOpBudget bounds the storage calls one recursive helper may make over
+// the (at most a few dozen keys of the) generated store: a helper that loops
+// because a page repeats entries is reported as a violation of the contract
+// instead of hanging the run.
+const helperOpBudget = 20000
+
+type budgetStorage struct {
+	logical.Storage
+	left      int
+	exhausted bool
+}
+
+func (b *budgetStorage) spend() error {
+	b.left--
+	if b.left < 0 {
+		b.exhausted = true
+		return fmt.Errorf("verif: helper exceeded its storage call budget")
+	}
+	return nil
+}
+
+func (b *budgetStorage) List(ctx context.Context, p string) ([]string, error) {
+	if err := b.spend(); err != nil {
+		return nil, err
+	}
+	return b.Storage.List(ctx, p)
+}
+
+func (b *budgetStorage) ListPage(ctx context.Context, p, after string, limit int) ([]string, error) {
+	if err := b.spend(); err != nil {
+		return nil, err
+	}
+	return b.Storage.ListPage(ctx, p, after, limit)
+}
+
+func (b *budgetStorage) Get(ctx context.Context, k string) (*logical.StorageEntry, error) {
+	if err := b.spend(); err != nil {
+		return nil, err
+	}
+	return b.Storage.Get(ctx, k)
+}
+
+func (b *budgetStorage) Delete(ctx context.Context, k string) error {
+	if err := b.spend(); err != nil {
+		return err
+	}
+	return b.Storage.Delete(ctx, k)
 }
 
 // resync reloads the model from the stack after a legitimately partial
